@@ -31,7 +31,7 @@ theorem real_ranges (x : ℝ) :
     have h3 : π ≤ 4 := Real.pi_le_four
     linarith
 
-/-- the three bounds that are NOT sound (open finding C06-pi-literal) -/
+/-- over ℝ (no rounding) three of the bounds are not met exactly, because the double `Pi()` is below π -/
 theorem real_pi_literal_cuts :
     (arcsin (-1) < -((piLit : ℚ) : ℝ) / 2) ∧ (((piLit : ℚ) : ℝ) < arccos (-1)) ∧
     (∃ x : ℝ, ((piLit : ℚ) : ℝ) / 2 < arctan x) ∧ (∃ x : ℝ, arctan x < -((piLit : ℚ) : ℝ) / 2) := by
@@ -50,5 +50,30 @@ theorem real_pi_literal_cuts :
     refine ⟨tan (-((((piLit : ℚ) : ℝ) / 2 + π / 2) / 2)), ?_⟩
     rw [arctan_tan (by linarith) (by linarith)]
     linarith
+
+
+/-- `Pi()` is the double nearest to π: doubles in `[2,4)` are spaced `2⁻⁵¹` apart and `0 < π − Pi() < 2⁻⁵²` -/
+theorem piLit_nearest : 0 < π - ((piLit : ℚ) : ℝ) ∧ π - ((piLit : ℚ) : ℝ) < 1 / 2 ^ 52 := by
+  refine ⟨by linarith [piLit_lt_pi], ?_⟩
+  have h : (3.14159265358979323847 : ℝ) - ((piLit : ℚ) : ℝ) < 1 / 2 ^ 52 := by
+    unfold piLit; push_cast; norm_num
+  linarith [Real.pi_lt_d20]
+
+/-- ranges of the *rounded* inverse trigonometric functions: for every monotone rounding `rn` that maps `±π/2`, `π`
+to `±Pi()/2`, `Pi()` (what round-to-nearest does, by `piLit_nearest`) and fixes `0` -/
+theorem rounded_ranges (rn : ℝ → ℝ) (hm : Monotone rn) (h0 : rn 0 = 0)
+    (h1 : rn (π / 2) = ((piLit : ℚ) : ℝ) / 2) (h2 : rn (-(π / 2)) = -((piLit : ℚ) : ℝ) / 2)
+    (h3 : rn π = ((piLit : ℚ) : ℝ)) (x : ℝ) :
+    (-((piLit : ℚ) : ℝ) / 2 ≤ rn (arcsin x) ∧ rn (arcsin x) ≤ ((piLit : ℚ) : ℝ)) ∧
+    (0 ≤ rn (arccos x) ∧ rn (arccos x) ≤ ((piLit : ℚ) : ℝ)) ∧
+    (-((piLit : ℚ) : ℝ) / 2 ≤ rn (arctan x) ∧ rn (arctan x) ≤ ((piLit : ℚ) : ℝ) / 2) := by
+  have hp : (0 : ℝ) < ((piLit : ℚ) : ℝ) := by unfold piLit; push_cast; norm_num
+  refine ⟨⟨?_, ?_⟩, ⟨?_, ?_⟩, ⟨?_, ?_⟩⟩
+  · rw [← h2]; exact hm (neg_pi_div_two_le_arcsin x)
+  · have := hm (arcsin_le_pi_div_two x); rw [h1] at this; linarith
+  · rw [← h0]; exact hm (arccos_nonneg x)
+  · rw [← h3]; exact hm (arccos_le_pi x)
+  · rw [← h2]; exact hm (neg_pi_div_two_lt_arctan x).le
+  · rw [← h1]; exact hm (arctan_lt_pi_div_two x).le
 
 end MpVerif.C06
